@@ -366,7 +366,7 @@ pub fn run(run: &'static Run) {
     crate::c16c::concurrent(run);
     // the BFS gets a time box of its own (the concurrent part above has used an unknown share of the first one)
     if std::env::var("VERIF_C16_BUDGET").is_err() {
-        run.budget_secs(run.pick(25.0, 400.0));
+        run.budget_secs(run.pick(30.0, 400.0));
     }
 
     let seen: Mutex<HashSet<u64>> = Mutex::new(HashSet::new());
